@@ -150,6 +150,11 @@ fn gen_route(rng: &mut StdRng) -> String {
         2 => "r".repeat(if super::miri() { 300 } else { rng.gen_range(1_000..70_000) }),
         3 => "/путь/日本/🦀".into(),
         4 => "/nul\0inside".into(),
+        5 | 6 => {
+            // 1-4 byte UTF-8 sequences with a wide character across every byte offset < 300
+            let sweep = rng.gen_range(0..4096);
+            super::c06::hostile_text(rng, sweep, "/")
+        }
         _ => format!("/svc.{}/M{}", rng.gen::<u16>(), rng.gen::<u8>()),
     }
 }
@@ -297,6 +302,16 @@ pub fn scenario(idx: usize, seed: u64, msgs: usize) -> ScenarioResult {
             let mut c: Vec<usize> = (0..40).collect();
             c.extend((0..60).map(|_| rng.gen_range(0..bytes.len())));
             c.extend(bytes.len() - 20..bytes.len());
+            // the structural boundaries: end of preamble, of the header length, of the header frame,
+            // of the body length, first body byte
+            if bytes.len() > 12 {
+                let hlen = u32::from_be_bytes([bytes[8], bytes[9], bytes[10], bytes[11]]) as usize;
+                for b in [8, 11, 12, 12 + hlen - 1, 12 + hlen, 12 + hlen + 1, 12 + hlen + 3, 12 + hlen + 4, 12 + hlen + 5] {
+                    if b < bytes.len() {
+                        c.push(b);
+                    }
+                }
+            }
             c
         };
         for cut in cuts {
